@@ -148,6 +148,12 @@ func genSpec(t *rapid.T, backends []string) caseSpec {
 			{Kind: "r.dwflush", Reader: reader},
 			{Kind: "r.get", Key: key, Reader: rapid.IntRange(0, 7).Draw(t, "dwafter")},
 		}
+		if rapid.Bool().Draw(t, "dwevict") {
+			// instead of a flush: further delayed writes push the queued entry out of the interface's small cache,
+			// whose eviction handler writes it out
+			motif[3] = opSpec{Kind: "r.dwput", Key: (key + 1) % 5, Reader: reader, N: 5}
+			motif = append(motif[:4], opSpec{Kind: "r.dwput", Key: (key + 2) % 5, Reader: reader, N: 6}, opSpec{Kind: "r.dwput", Key: (key + 3) % 5, Reader: reader, N: 7}, motif[4])
+		}
 		at := rapid.IntRange(1, len(spec.Ops)).Draw(t, "dwat")
 		ops := append([]opSpec{}, spec.Ops[:at]...)
 		ops = append(ops, motif...)
@@ -345,6 +351,31 @@ func TestRegStaleCacheWrite(t *testing.T) {
 					{Kind: "w.put", Key: 0, Flags: flags},
 					{Kind: kind, Key: 0, Reader: reader},
 				}}, false)
+			}
+		}
+	}
+}
+
+// TestRegEvictedDelayedWrite: a write queued by an interface that lacks a
+// privilege (cache + DelayCachedWrites) was written out by the cache's eviction
+// handler without a permission check: it replaced, unflagged, a secret or crown
+// jewel record stored under the key in the meantime. Minimal history found by
+// TestPropStateMachine.
+func TestRegEvictedDelayedWrite(t *testing.T) {
+	for _, backend := range []string{beHashmap, beBbolt} {
+		for _, shadow := range []bool{false, true} {
+			for _, flags := range []int{1, 2, 3} {
+				for _, reader := range []int{0, 1, 2} {
+					runSpec(t, caseSpec{Backend: backend, Shadow: shadow, Ops: []opSpec{
+						{Kind: "w.delete", Key: 2},
+						{Kind: "r.dwput", Key: 2, Reader: reader, N: 3},
+						{Kind: "w.put", Key: 2, Flags: flags, N: 4, T: 2},
+						{Kind: "r.dwput", Key: 3, Reader: reader, N: 5},
+						{Kind: "r.dwput", Key: 4, Reader: reader, N: 6},
+						{Kind: "r.dwput", Key: 0, Reader: reader, N: 7},
+						{Kind: "r.get", Key: 2, Reader: reader},
+					}}, false)
+				}
 			}
 		}
 	}
